@@ -12,7 +12,7 @@
    "whatever the bytes" for the third-party layers is fuzzing, not proof. *)
 From Coq Require Import List NArith ZArith QArith Qcanon Bool.
 From ACB Require Import Base.Outcome Base.QcExtra Base.Fit Base.Arith Model.Tx Model.Ledger Model.Sfl
-     Model.DeltaList Proofs.C04Inv Proofs.C05Sites Proofs.C04Reject Proofs.C05NoPanic Proofs.C05Dec.
+     Model.DeltaList Proofs.C04Inv Proofs.C05Sites Proofs.C04Reject Proofs.C05NoPanic Proofs.C05Dec Proofs.FitProps.
 Import ListNotations.
 
 (* Under exact arithmetic neither assert_eq! of set_latest_post_status can
@@ -217,3 +217,26 @@ Proof.
   split; [intros i E; discriminate E|]. split; [repeat constructor|].
   vm_compute. repeat split.
 Qed.
+
+
+(* ---- what the overflow class is: an exact intermediate value beyond the
+   96-bit integer range.  A rust_decimal operation (fit) succeeds whenever the
+   exact result has magnitude at most 2^96 - 1 (some scale, at worst 0, fits),
+   and when it fails the exact result has magnitude at least 2^96 - 1/2.  So
+   class (2) of C05's refutation is "some exact sum/product/quotient of the
+   run reaches 7.9e28" and nothing else. *)
+Theorem C05_no_overflow_below_2_96 : forall q : Qc,
+  (Z.abs (Qnum (this q)) <= max_mant * Zpos (Qden (this q)))%Z -> exists r, fit q = Some r.
+Proof. exact FitProps.fit_total_in_range. Qed.
+Check C05_no_overflow_below_2_96 : forall q : Qc,
+  (Z.abs (Qnum (this q)) <= max_mant * Zpos (Qden (this q)))%Z -> exists r, fit q = Some r.
+Print Assumptions C05_no_overflow_below_2_96.
+
+Theorem C05_overflow_means_magnitude : forall q : Qc,
+  fit q = None ->
+  (2 * max_mant * Zpos (Qden (this q)) + Zpos (Qden (this q)) <= 2 * Z.abs (Qnum (this q)))%Z.
+Proof. exact FitProps.fit_none_magnitude. Qed.
+Check C05_overflow_means_magnitude : forall q : Qc,
+  fit q = None ->
+  (2 * max_mant * Zpos (Qden (this q)) + Zpos (Qden (this q)) <= 2 * Z.abs (Qnum (this q)))%Z.
+Print Assumptions C05_overflow_means_magnitude.
